@@ -1,9 +1,11 @@
 //! Runner: proptest-driven generation, classification, shrinking, replay files, known findings, evidence.
+pub use super::json::J;
 use proptest::strategy::{BoxedStrategy, Strategy, ValueTree};
-use proptest::test_runner::{Config, RngAlgorithm, RngSeed, TestCaseError, TestError, TestRng, TestRunner};
+use proptest::test_runner::{
+    Config, RngAlgorithm, RngSeed, TestCaseError, TestError, TestRng, TestRunner,
+};
 use serde::de::DeserializeOwned;
 use serde::{Deserialize, Serialize};
-pub use super::json::J;
 
 /// JSON text codec, supplied by the binary crate (serde_json must not be linked into the dnp3 crate itself:
 /// its `impl PartialEq<Value> for u32` makes an inference in master/tasks/file/close.rs ambiguous)
@@ -44,7 +46,11 @@ pub struct Fail {
 
 impl Fail {
     pub fn new(clause: &str, detail: impl Into<String>) -> Self {
-        Self { clause: clause.to_string(), detail: detail.into(), sig: clause.to_string() }
+        Self {
+            clause: clause.to_string(),
+            detail: detail.into(),
+            sig: clause.to_string(),
+        }
     }
     pub fn with_sig(mut self, sig: impl Into<String>) -> Self {
         self.sig = sig.into();
@@ -95,7 +101,15 @@ pub trait Prop: 'static {
 }
 
 /// cases currently executing on worker threads (only for sub-checks with TRACK_STALL)
-pub static RUNNING: Mutex<Vec<(std::thread::ThreadId, std::time::Instant, String, String, String)>> = Mutex::new(Vec::new());
+pub static RUNNING: Mutex<
+    Vec<(
+        std::thread::ThreadId,
+        std::time::Instant,
+        String,
+        String,
+        String,
+    )>,
+> = Mutex::new(Vec::new());
 
 // ---------------------------------------------------------------------------------------------
 // panic capture
@@ -138,7 +152,11 @@ pub fn peek_panic() -> Option<String> {
 /// a panic text as a failure; the signature keeps file:line (specific) with the /repo prefix stripped
 pub fn panic_fail(text: &str) -> Fail {
     let short = text.replace("/repo/dnp3/src/", "");
-    Fail { clause: "panic".into(), detail: text.to_string(), sig: short }
+    Fail {
+        clause: "panic".into(),
+        detail: text.to_string(),
+        sig: short,
+    }
 }
 
 pub fn is_harness_panic(text: &str) -> bool {
@@ -160,7 +178,11 @@ pub fn run_case<P: Prop>(case: &P::Case) -> CaseOut {
         }
         Err(_) => {
             let p = take_panic().unwrap_or_else(|| "panic@?: <unknown>".to_string());
-            CaseOut { labels: vec!["panicked".into()], nontrivial: true, fail: Some(panic_fail(&p)) }
+            CaseOut {
+                labels: vec!["panicked".into()],
+                nontrivial: true,
+                fail: Some(panic_fail(&p)),
+            }
         }
     }
 }
@@ -191,7 +213,11 @@ pub fn load_known<C: Codec>(property: &str) -> Vec<Known> {
         Err(_) => return vec![],
     };
     match C::from_str::<KnownFile>(&text) {
-        Ok(f) => f.findings.into_iter().filter(|k| k.properties.iter().any(|p| p == property)).collect(),
+        Ok(f) => f
+            .findings
+            .into_iter()
+            .filter(|k| k.properties.iter().any(|p| p == property))
+            .collect(),
         Err(e) => {
             println!("INCONCLUSIVE known_findings.json does not parse: {e}");
             std::process::exit(2);
@@ -200,7 +226,9 @@ pub fn load_known<C: Codec>(property: &str) -> Vec<Known> {
 }
 
 pub fn match_known<'a>(known: &'a [Known], f: &Fail) -> Option<&'a Known> {
-    known.iter().find(|k| !k.match_all.is_empty() && k.match_all.iter().all(|s| f.sig.contains(s.as_str())))
+    known
+        .iter()
+        .find(|k| !k.match_all.is_empty() && k.match_all.iter().all(|s| f.sig.contains(s.as_str())))
 }
 
 // ---------------------------------------------------------------------------------------------
@@ -266,7 +294,10 @@ pub struct ReplayBody<T> {
 }
 
 pub fn seed_from_env() -> u64 {
-    std::env::var("VERIF_SEED").ok().and_then(|s| s.parse::<u64>().ok()).unwrap_or(20260925)
+    std::env::var("VERIF_SEED")
+        .ok()
+        .and_then(|s| s.parse::<u64>().ok())
+        .unwrap_or(20260925)
 }
 
 fn rng_seed_bytes(seed: u64, salt: u64) -> [u8; 32] {
@@ -301,7 +332,13 @@ fn sample_json<C: Codec, T: Serialize>(case: &T) -> J {
 }
 
 /// generated search for one sub-check on one worker
-fn worker<C: Codec, P: Prop>(tier: Tier, seed: u64, salt: u64, cases: u32, known: &[Known]) -> (Stats, Option<Violation>) {
+fn worker<C: Codec, P: Prop>(
+    tier: Tier,
+    seed: u64,
+    salt: u64,
+    cases: u32,
+    known: &[Known],
+) -> (Stats, Option<Violation>) {
     let mut stats = Stats::default();
     let config = Config {
         cases,
@@ -310,7 +347,10 @@ fn worker<C: Codec, P: Prop>(tier: Tier, seed: u64, salt: u64, cases: u32, known
         max_global_rejects: 100_000,
         ..Config::default()
     };
-    let rng = TestRng::from_seed(RngAlgorithm::ChaCha, &rng_seed_bytes(seed, salt ^ hash_str(P::NAME)));
+    let rng = TestRng::from_seed(
+        RngAlgorithm::ChaCha,
+        &rng_seed_bytes(seed, salt ^ hash_str(P::NAME)),
+    );
     let mut runner = TestRunner::new_with_rng(config, rng);
     let strategy = P::strategy(tier);
     let failed = std::cell::Cell::new(false);
@@ -326,7 +366,13 @@ fn worker<C: Codec, P: Prop>(tier: Tier, seed: u64, salt: u64, cases: u32, known
                 let me = std::thread::current().id();
                 let mut r = RUNNING.lock().unwrap();
                 r.retain(|x| x.0 != me);
-                r.push((me, std::time::Instant::now(), P::ID.to_string(), P::NAME.to_string(), C::to_string(&case)));
+                r.push((
+                    me,
+                    std::time::Instant::now(),
+                    P::ID.to_string(),
+                    P::NAME.to_string(),
+                    C::to_string(&case),
+                ));
             }
             let out = run_case::<P>(&case);
             if P::TRACK_STALL {
@@ -344,14 +390,22 @@ fn worker<C: Codec, P: Prop>(tier: Tier, seed: u64, salt: u64, cases: u32, known
                     let js = C::to_string(&case);
                     if st.nontrivial_hashes.insert(hash_str(&js)) && st.samples.len() < 2 {
                         let d = sample_json::<C, _>(&case);
-                        st.samples.push(J::o(vec![("check", J::s(P::NAME)), ("labels", J::strs(out.labels.clone())), ("case", d)]));
+                        st.samples.push(J::o(vec![
+                            ("check", J::s(P::NAME)),
+                            ("labels", J::strs(out.labels.clone())),
+                            ("case", d),
+                        ]));
                     }
                 }
             }
             if let Some(f) = out.fail {
                 if let Some(k) = match_known(known, &f) {
                     if counting {
-                        *stats_cell.borrow_mut().known_hits.entry(k.id.clone()).or_default() += 1;
+                        *stats_cell
+                            .borrow_mut()
+                            .known_hits
+                            .entry(k.id.clone())
+                            .or_default() += 1;
                     }
                     return Ok(());
                 }
@@ -384,7 +438,12 @@ fn worker<C: Codec, P: Prop>(tier: Tier, seed: u64, salt: u64, cases: u32, known
             (stats, Some(v))
         }
         Err(TestError::Abort(reason)) => {
-            println!("INCONCLUSIVE property={} check={} proptest aborted: {}", P::ID, P::NAME, reason);
+            println!(
+                "INCONCLUSIVE property={} check={} proptest aborted: {}",
+                P::ID,
+                P::NAME,
+                reason
+            );
             std::process::exit(2);
         }
     }
@@ -407,8 +466,14 @@ pub struct Ctx<C: Codec> {
 
 pub fn threads_for(tier: Tier) -> usize {
     match tier {
-        Tier::Quick => std::env::var("VERIF_QUICK_THREADS").ok().and_then(|s| s.parse().ok()).unwrap_or(8),
-        Tier::Thorough => std::env::var("VERIF_THREADS").ok().and_then(|s| s.parse().ok()).unwrap_or(16),
+        Tier::Quick => std::env::var("VERIF_QUICK_THREADS")
+            .ok()
+            .and_then(|s| s.parse().ok())
+            .unwrap_or(8),
+        Tier::Thorough => std::env::var("VERIF_THREADS")
+            .ok()
+            .and_then(|s| s.parse().ok())
+            .unwrap_or(16),
     }
 }
 
@@ -477,7 +542,11 @@ impl<C: Codec> Ctx<C> {
                 if n * 1000 < (permille as u64) * sub.evaluations {
                     self.health.push(format!(
                         "[{}] label '{}' seen in {} of {} cases (< {} per mille)",
-                        P::NAME, label, n, sub.evaluations, permille
+                        P::NAME,
+                        label,
+                        n,
+                        sub.evaluations,
+                        permille
                     ));
                 }
             }
@@ -497,7 +566,11 @@ impl<C: Codec> Ctx<C> {
     fn run_replays<P: Prop>(&mut self) {
         let dir = format!("/verif/replays/{}", P::ID);
         let mut files: Vec<_> = match std::fs::read_dir(&dir) {
-            Ok(rd) => rd.filter_map(|e| e.ok()).map(|e| e.path()).filter(|p| p.extension().map(|x| x == "json").unwrap_or(false)).collect(),
+            Ok(rd) => rd
+                .filter_map(|e| e.ok())
+                .map(|e| e.path())
+                .filter(|p| p.extension().map(|x| x == "json").unwrap_or(false))
+                .collect(),
             Err(_) => return,
         };
         files.sort();
@@ -513,7 +586,10 @@ impl<C: Codec> Ctx<C> {
             let case: P::Case = match C::from_str::<ReplayBody<P::Case>>(&text) {
                 Ok(c) => c.case,
                 Err(e) => {
-                    println!("note: replay {} no longer deserialises ({e}); skipped", f.display());
+                    println!(
+                        "note: replay {} no longer deserialises ({e}); skipped",
+                        f.display()
+                    );
                     continue;
                 }
             };
@@ -541,7 +617,9 @@ impl<C: Codec> Ctx<C> {
 
     /// record a completely enumerated sub-domain; `f` returns (evaluations, samples, optional failure with its case as JSON)
     pub fn exhaustive(&mut self, name: &str, f: impl FnOnce() -> (u64, Vec<J>, Option<(Fail, J)>)) {
-        self.rules.push(format!("[exhaustive] {name}: every element is a distinct case"));
+        self.rules.push(format!(
+            "[exhaustive] {name}: every element is a distinct case"
+        ));
         if !self.violations.is_empty() {
             return;
         }
@@ -551,17 +629,29 @@ impl<C: Codec> Ctx<C> {
             Ok(x) => x,
             Err(_) => {
                 let p = take_panic().unwrap_or_default();
-                (0, vec![], Some((panic_fail(&p), J::o(vec![("exhaustive", J::s(name))]))))
+                (
+                    0,
+                    vec![],
+                    Some((panic_fail(&p), J::o(vec![("exhaustive", J::s(name))]))),
+                )
             }
         };
         self.stats.evaluations += n;
-        self.stats.exhaustive.push(J::o(vec![("name", J::s(name)), ("evaluations", J::U(n)), ("exhaustive", J::Bool(fail.is_none()))]));
+        self.stats.exhaustive.push(J::o(vec![
+            ("name", J::s(name)),
+            ("evaluations", J::U(n)),
+            ("exhaustive", J::Bool(fail.is_none())),
+        ]));
         for s in samples.into_iter().take(2) {
-            self.stats.samples.push(J::o(vec![("check", J::s(name)), ("case", s)]));
+            self.stats
+                .samples
+                .push(J::o(vec![("check", J::s(name)), ("case", s)]));
         }
         // every enumerated element is distinct by construction
         for i in 0..n {
-            self.stats.nontrivial_hashes.insert(hash_str(&format!("{name}#{i}")));
+            self.stats
+                .nontrivial_hashes
+                .insert(hash_str(&format!("{name}#{i}")));
         }
         if let Some((fail, case)) = fail {
             if let Some(k) = match_known(&self.known, &fail) {
@@ -586,7 +676,10 @@ impl<C: Codec> Ctx<C> {
         // harness bugs are never reported as violations
         for v in &self.violations {
             if is_harness_panic(&v.detail) {
-                println!("INCONCLUSIVE property={} harness panic: {}", self.property, v.detail);
+                println!(
+                    "INCONCLUSIVE property={} harness panic: {}",
+                    self.property, v.detail
+                );
                 return 2;
             }
         }
@@ -603,7 +696,11 @@ impl<C: Codec> Ctx<C> {
             ]);
             let dir = format!("/verif/replays/{}", v.property);
             let _ = std::fs::create_dir_all(&dir);
-            let safe: String = v.check.chars().map(|c| if c.is_ascii_alphanumeric() { c } else { '_' }).collect();
+            let safe: String = v
+                .check
+                .chars()
+                .map(|c| if c.is_ascii_alphanumeric() { c } else { '_' })
+                .collect();
             let path = format!("{}/{}-{:016x}.json", dir, safe, hash_str(&v.case));
             // a saved replay that fails again is reported, not rewritten
             if !std::path::Path::new(&path).exists() {
@@ -615,10 +712,27 @@ impl<C: Codec> Ctx<C> {
             .known
             .iter()
             .filter(|k| self.stats.known_hits.get(&k.id).copied().unwrap_or(0) > 0)
-            .map(|k| format!("KNOWN-FINDING: property={} {} [{}] hits={}", self.property, k.what, k.id, self.stats.known_hits[&k.id]))
+            .map(|k| {
+                format!(
+                    "KNOWN-FINDING: property={} {} [{}] hits={}",
+                    self.property, k.what, k.id, self.stats.known_hits[&k.id]
+                )
+            })
             .collect();
-        let labels = J::O(self.stats.labels.iter().map(|(k, v)| (k.clone(), J::U(*v))).collect());
-        let known_hits = J::O(self.stats.known_hits.iter().map(|(k, v)| (k.clone(), J::U(*v))).collect());
+        let labels = J::O(
+            self.stats
+                .labels
+                .iter()
+                .map(|(k, v)| (k.clone(), J::U(*v)))
+                .collect(),
+        );
+        let known_hits = J::O(
+            self.stats
+                .known_hits
+                .iter()
+                .map(|(k, v)| (k.clone(), J::U(*v)))
+                .collect(),
+        );
         let mut samples = self.stats.samples.clone();
         if samples.is_empty() {
             samples.push(J::s("(no non-trivial case was generated in this run)"));
@@ -632,7 +746,10 @@ impl<C: Codec> Ctx<C> {
                 "coverage",
                 J::o(vec![
                     ("evaluations", J::U(self.stats.evaluations)),
-                    ("distinct_nontrivial", J::U(self.stats.nontrivial_hashes.len() as u64)),
+                    (
+                        "distinct_nontrivial",
+                        J::U(self.stats.nontrivial_hashes.len() as u64),
+                    ),
                     ("rule", J::s(self.rules.join(" || "))),
                     ("samples", J::A(samples)),
                     ("labels", labels),
@@ -640,7 +757,10 @@ impl<C: Codec> Ctx<C> {
                     ("exhaustive_subdomains", J::A(self.stats.exhaustive.clone())),
                     ("replays_run", J::U(self.stats.replays_run)),
                     ("generator_health", J::strs(self.health.clone())),
-                    ("src_hash", J::s(option_env!("VERIF_SRC_HASH").unwrap_or(""))),
+                    (
+                        "src_hash",
+                        J::s(option_env!("VERIF_SRC_HASH").unwrap_or("")),
+                    ),
                 ]),
             ),
             ("assumptions", J::strs(self.assumptions.clone())),
@@ -658,18 +778,32 @@ impl<C: Codec> Ctx<C> {
         }
         println!(
             "property={} tier={} seed={} evaluations={} distinct_nontrivial={} wall_s={:.1}",
-            self.property, self.tier.name(), self.seed, self.stats.evaluations, self.stats.nontrivial_hashes.len(), wall
+            self.property,
+            self.tier.name(),
+            self.seed,
+            self.stats.evaluations,
+            self.stats.nontrivial_hashes.len(),
+            wall
         );
         if !self.violations.is_empty() {
             for (v, p) in self.violations.iter().zip(replay_paths.iter()) {
-                println!("  check={} clause={} sig={}\n  detail={}", v.check, v.clause, v.sig, truncate(&v.detail, 800));
+                println!(
+                    "  check={} clause={} sig={}\n  detail={}",
+                    v.check,
+                    v.clause,
+                    v.sig,
+                    truncate(&v.detail, 800)
+                );
                 println!("VIOLATION property={} replay={}", v.property, p);
             }
             return 1;
         }
         if !self.health.is_empty() {
             for h in &self.health {
-                println!("INCONCLUSIVE property={} generator health: {}", self.property, h);
+                println!(
+                    "INCONCLUSIVE property={} generator health: {}",
+                    self.property, h
+                );
             }
             return 2;
         }
@@ -692,7 +826,10 @@ pub fn truncate(s: &str, n: usize) -> String {
 
 /// VERIF_SCALE (percent) lets mutation runs use a reduced budget; default 100
 pub fn scaled(n: u32) -> u32 {
-    let pct: u64 = std::env::var("VERIF_SCALE").ok().and_then(|s| s.parse().ok()).unwrap_or(100);
+    let pct: u64 = std::env::var("VERIF_SCALE")
+        .ok()
+        .and_then(|s| s.parse().ok())
+        .unwrap_or(100);
     (((n as u64) * pct) / 100).max(1) as u32
 }
 
@@ -717,7 +854,14 @@ pub fn replay_file<C: Codec, P: Prop>(text: &str, known: &[Known]) -> Option<i32
             Some(0)
         }
         Some(f) => {
-            println!("replay FAILED: property={} check={} clause={} sig={}\n  {}", P::ID, P::NAME, f.clause, f.sig, f.detail);
+            println!(
+                "replay FAILED: property={} check={} clause={} sig={}\n  {}",
+                P::ID,
+                P::NAME,
+                f.clause,
+                f.sig,
+                f.detail
+            );
             if let Some(k) = match_known(known, &f) {
                 println!("KNOWN-FINDING: property={} {} [{}]", P::ID, k.what, k.id);
                 return Some(0);
@@ -730,7 +874,10 @@ pub fn replay_file<C: Codec, P: Prop>(text: &str, known: &[Known]) -> Option<i32
 /// wall-clock watchdog: a case that never returns (non-yielding loop) => exit 2, never a VIOLATION
 pub fn start_watchdog() {
     std::thread::spawn(|| {
-        let limit: u64 = std::env::var("VERIF_WATCHDOG_S").ok().and_then(|s| s.parse().ok()).unwrap_or(180);
+        let limit: u64 = std::env::var("VERIF_WATCHDOG_S")
+            .ok()
+            .and_then(|s| s.parse().ok())
+            .unwrap_or(180);
         let mut last = HEARTBEAT.load(Ordering::Relaxed);
         let mut idle = 0u64;
         loop {
@@ -747,8 +894,20 @@ pub fn start_watchdog() {
                             if since.elapsed().as_secs() + 5 >= limit {
                                 let dir = format!("/verif/replays/{id}");
                                 let _ = std::fs::create_dir_all(&dir);
-                                let path = format!("{dir}/stall-{name}-{:016x}.json.stalled", hash_str(case));
-                                let body = J::o(vec![("property", J::s(id.as_str())), ("check", J::s(name.as_str())), ("clause", J::s("stall")), ("detail", J::s("the case never returned (wall-clock watchdog)")), ("case", J::Raw(case.clone()))]);
+                                let path = format!(
+                                    "{dir}/stall-{name}-{:016x}.json.stalled",
+                                    hash_str(case)
+                                );
+                                let body = J::o(vec![
+                                    ("property", J::s(id.as_str())),
+                                    ("check", J::s(name.as_str())),
+                                    ("clause", J::s("stall")),
+                                    (
+                                        "detail",
+                                        J::s("the case never returned (wall-clock watchdog)"),
+                                    ),
+                                    ("case", J::Raw(case.clone())),
+                                ]);
                                 let _ = std::fs::write(&path, body.render());
                                 saved.push(path);
                             }
